@@ -14,6 +14,7 @@ import scan_real as sr
 import scan_streams
 import tree_stream
 import pytree_stream
+import mark_stream
 from gen import programs
 from props import C15
 
@@ -155,6 +156,17 @@ def correspond(ctx):
     dist["pytrees"] = dict(pt["distribution"], **pt.get("counts", {}))
     tr["evaluations"] += pt["evaluations"]; tr["distinct_nontrivial"] += pt["distinct_nontrivial"]
     tr["rule"] += " PLUS " + pt["rule"]
+    # forests decorated with comments and suppression markers, incl. assigned arrow functions (`Props/C01marks.lean`,
+    # `C01arrow.lean`, `C01marktext.lean`: driver op `marktree` returns the MARKED report read off the tree)
+    mk = mark_stream.correspond(ctx.rng("marktrees"), ctx.pick(300, 3000))
+    for key in ("lexer_mismatch", "generator_bug", "model_errors"):
+        for x in mk.get(key, [])[:10]:
+            dis.append({"stream": "marktree/%s" % key, "input": x.get("input"), "model": str(x.get("forest") or x.get("why") or x.get("model"))[:300],
+                        "impl": str(x.get("real", ""))[:300]})
+    fails += mk["oracle_failures"][:20]
+    dist["marktrees"] = dict(mk["distribution"], **mk.get("counts", {}))
+    tr["evaluations"] += mk["evaluations"]; tr["distinct_nontrivial"] += mk["distinct_nontrivial"]
+    tr["rule"] += " PLUS " + mk["rule"]
     nontrivial |= {("tree",) + tuple(x) for x in []}
     return {
         "evaluations": len(allc) + tr["evaluations"], "distinct_nontrivial": len(nontrivial) + tr["distinct_nontrivial"],
